@@ -63,11 +63,12 @@ Raw3 == IF Triples THEN UNION {Dev3(b, TxFields) : b \in TxBases} \cup UNION {De
 Raw == Raw3 \cup UNION {IF Pairs THEN Dev2(b, TxFields) ELSE Dev1(b, TxFields) : b \in TxBases}
        \cup UNION {IF Pairs THEN Dev2(b, RxFields) ELSE Dev1(b, RxFields) : b \in RxBases}
 
-\* don't-cares of the statement: version 0 has no NOPE indication; the MTS
-\* fields of a NOPE indication do not exist
+\* don't-cares of the statement: the MTS fields of a NOPE indication do not exist.  Version 0
+\* has no NOPE indication: there the flag of the message object changes nothing - the burst of
+\* 148 or 444 soft bits is required all the same (cases with the flag set on version 0 are kept)
 Meaningful(c) ==
   c.cls = "rx" =>
-    /\ ~(c.nope /\ c.ver # O(1))
+    /\ ~(c.nope /\ c.ver \notin {O(0), O(1)})
     /\ c.nope => (c.mod = "GMSK" /\ c.tsc = O(2) /\ c.tscset = O(1))
 
 Cases == {c \in Raw : Meaningful(c)}
